@@ -2,9 +2,9 @@ package rules
 
 import (
 	"fmt"
-	"os"
 	"go/token"
 	"go/types"
+	"os"
 	"strings"
 
 	"golang.org/x/tools/go/ssa"
@@ -34,17 +34,17 @@ func init() {
 			{"C10/kind-groups", func(c *Ctx) { runAs(c, "C10/kind-groups", "C08/kind-groups", ruleC08KindGroups) }},
 		},
 		Explanation: "Splits `never panics or hangs` into panic sites and unbounded recursion and decides the structural part of each: every explicit panic and assertion is inventoried and is either unreachable for JSON-shaped kinds (reflect-kind dataflow), inside a partial helper all of whose call sites guarantee its precondition, or an assertion discharged by a named rule; every in-package iterator stops calling yield after it returned false; every partial reflect operation (Elem, IsNil, Len, Index, MapIndex, Field*, Int/Uint/Float, Type, ...) reachable from the entry points is dominated by kind tests implying its precondition or its callers guarantee it; keys of reflect map accesses are assignable; a pointer returned by the Loader callback, and a schema returned by inference under IgnoreInvalidTypes, is dereferenced only after a nil test; a reflect.Value that may be the zero Value is passed to Set only after IsValid; every $dynamicRef is resolved whenever the schema has one; side tables are indexed only by schemas of the resolved universe; every recursive component of the package is one of the known terminating shapes, each with its own checked obligation (seen tables, loader cache, structure check). It does NOT decide absence of all run-time panics (index arithmetic, stack exhaustion on very deep inputs, regexp blow-up).",
-		NotDecided: []string{"absence of all run-time panics (index arithmetic inside the standard library, stack exhaustion on deep but finite inputs, regexp blow-up)", "recursion through $ref without an instance-descending keyword (excluded by the property)", "panics inside user callbacks"},
+		NotDecided:  []string{"absence of all run-time panics (index arithmetic inside the standard library, stack exhaustion on deep but finite inputs, regexp blow-up)", "recursion through $ref without an instance-descending keyword (excluded by the property)", "panics inside user callbacks"},
 	})
 }
 
 // assertion messages -> the rule that discharges them
 var assertDischarge = map[string]string{
-	"nil schema":                      "C10/tree-check (the structure check rejects nil subschemas before any traversal) and C10/pointer-walker (no nil reference target)",
-	"DynamicRef not resolved properly": "C06/lexical-or-dynamic and C10/dynamic-ref-resolved (exactly one of the two fields is set for every schema with $dynamicRef)",
+	"nil schema":                                  "C10/tree-check (the structure check rejects nil subschemas before any traversal) and C10/pointer-walker (no nil reference target)",
+	"DynamicRef not resolved properly":            "C06/lexical-or-dynamic and C10/dynamic-ref-resolved (exactly one of the two fields is set for every schema with $dynamicRef)",
 	"DynamicRef not statically resolved properly": "same as above (unused helper)",
-	"non-empty infos":                 "the only caller passes the fresh map of a new Resolved (C10/explicit-panics checks the call site)",
-	"nil referenced schema":           "the root of a Resolved is the non-nil receiver of Resolve or a Loader result tested for nil (C10/callback-results)",
+	"non-empty infos":                             "the only caller passes the fresh map of a new Resolved (C10/explicit-panics checks the call site)",
+	"nil referenced schema":                       "the root of a Resolved is the non-nil receiver of Resolve or a Loader result tested for nil (C10/callback-results)",
 }
 
 func ruleC10Panics(c *Ctx) {
